@@ -754,16 +754,58 @@ def census_lost(f, recorded):
     return ["%s x%d (was x%d)" % (k, now.get(k, 0), v) for k, v in sorted(recorded.items()) if now.get(k, 0) < v]
 
 
+_CMP = re.compile(r"^(Gt|Ge|Lt|Le|Ne|Eq)\((.*)\)=(T|F)$")
+
+
+def _split_top(s):
+    """split `a,b` at the top-level comma."""
+    depth = 0
+    for i, c in enumerate(s):
+        if c in "([":
+            depth += 1
+        elif c in ")]":
+            depth -= 1
+        elif c == "," and depth == 0:
+            return s[:i], s[i + 1:]
+    return None
+
+
+def canon_guard(g):
+    """one spelling per comparison: `Gt(a,b)=F`, `Le(a,b)=T` and `Ge(b,a)=T` are the same condition."""
+    m = _CMP.match(g)
+    if not m:
+        return g
+    op, args, tv = m.groups()
+    ab = _split_top(args)
+    if ab is None:
+        return g
+    a, b = ab
+    t = tv == "T"
+    if op in ("Eq", "Ne"):
+        eq = (op == "Eq") == t
+        x, y = sorted((a, b))
+        return "Eq(%s,%s)=%s" % (x, y, "T" if eq else "F")
+    # reduce to Lt / Le with =T
+    if op == "Gt":
+        op, a, b = "Lt", b, a
+    elif op == "Ge":
+        op, a, b = "Le", b, a
+    if not t:
+        # !(a < b) == b <= a ; !(a <= b) == b < a
+        op, a, b = ("Le", b, a) if op == "Lt" else ("Lt", b, a)
+    return "%s(%s,%s)=T" % (op, a, b)
+
+
 def _guards_match(row, ordinal, now):
     """the site's current guard set covers one of the guard sets recorded for this key at review time."""
-    now = set(now)
-    return any(set(g) <= now for g in row["guards"])
+    now = {canon_guard(x) for x in now}
+    return any({canon_guard(x) for x in g} <= now for g in row["guards"])
 
 
 def _guards_lost(row, now):
-    now = set(now)
-    best = min(row["guards"], key=lambda g: len(set(g) - now))
-    return sorted(set(best) - now)
+    now = {canon_guard(x) for x in now}
+    best = min(row["guards"], key=lambda g: len({canon_guard(x) for x in g} - now))
+    return sorted(x for x in best if canon_guard(x) not in now)
 
 
 def caller_guards_ok(P, f, guards):
@@ -1092,42 +1134,78 @@ def valstack_writers(P, res):
                 mut = (i == 0 and n.endswith(_MUTATORS)) or "::mem::" in n or (i > 0 and "&mut" in ((t.get("argtys") or [""] * 9)[i]))
                 if mut:
                     found.setdefault(f.path, []).append((fld, n.split("::")[-1], f.loc(t.get("fn_span"))))
+    ops_tbl = json.load(open(os.path.join(VERIF, "tables", "valstack_writers.json"))).get("ops", {})
+    E = P.edges()
+    callers_of = {}
+    for src_, es in E.items():
+        for kind, tgt, bi in es:
+            if kind != "live":
+                callers_of.setdefault(tgt.split("::{closure")[0], set()).add(src_.split("::{closure")[0])
+
+    def opset(ws):
+        return {"%s.%s" % (a_, b_) for a_, b_, _ in ws}
+    by_base = {}
+    for p, ws in found.items():
+        by_base.setdefault(p.split("::{closure")[0], []).extend(ws)
+    # a private helper split out of a reviewed writer inherits its review when every caller is that writer (or another
+    # such helper) and the kinds of writes it performs were among those reviewed for the writer
+    owner = {}
+    changed = True
+    while changed:
+        changed = False
+        for base in by_base:
+            if base in tbl or base in owner:
+                continue
+            cs = callers_of.get(base, set()) - {base}
+            owners = {c if c in tbl else owner.get(c) for c in cs}
+            if cs and None not in owners and len(owners) == 1:
+                owner[base] = owners.pop()
+                changed = True
     n = 0
-    for p, ws in sorted(found.items()):
-        base = p.split("::{closure")[0]
+    for base, ws in sorted(by_base.items()):
         n += len(ws)
-        if base in tbl:
-            res.ok("VALSTACK-WRITERS", "%s: %s" % (p, sorted({"%s.%s" % (a, b) for a, b, _ in ws})))
+        w_ = base if base in tbl else owner.get(base)
+        if w_ is not None and (w_ == base or opset(ws) <= set(ops_tbl.get(w_, []))):
+            extra = opset(ws) - set(ops_tbl.get(w_, opset(ws)))
+            if w_ == base and extra and w_ in ops_tbl:
+                res.bad("VALSTACK-WRITERS", "%s # new kind of write # %s" % (base, sorted(extra)),
+                        "`%s` is a reviewed writer of the evaluator's stacks, but it now also performs %s, which was not part of what was reviewed (%s)" % (
+                            base, sorted(extra), sorted(ops_tbl[w_])), ws[0][2])
+            else:
+                res.ok("VALSTACK-WRITERS", "%s: %s%s" % (base, sorted(opset(ws)), "" if w_ == base else " (split out of reviewed writer %s)" % w_))
         else:
-            res.bad("VALSTACK-WRITERS", "%s # writes # %s" % (p, sorted({"%s.%s" % (a, b) for a, b, _ in ws})),
+            res.bad("VALSTACK-WRITERS", "%s # writes # %s" % (base, sorted(opset(ws))),
                     "`%s` mutates the evaluator's %s directly (%s); the value-stack discipline that every "
-                    "`pop_value().expect(..)` relies on is only argued for the reviewed writers" % (p, ws[0][0], ws[0][2]), ws[0][2])
+                    "`pop_value().expect(..)` relies on is only argued for the reviewed writers" % (base, ws[0][0], ws[0][2]), ws[0][2])
     res.floor("VALSTACK-WRITERS", "mutating accesses to exprs_to_eval / evalled_values", n, 20)
-    # SKIP-BALANCE
-    f = P.funcs.get("json_session::handle_run_request")
-    if f is None:
+    # SKIP-BALANCE (in handle_run_request or the helper its `:skip` arm was split into)
+    hr = P.funcs.get("json_session::handle_run_request")
+    if hr is None:
         raise M.MissingAnchor("json_session::handle_run_request")
-    pops = [bi for bi, t in f.calls() if (M.callee_name(t) or "").endswith("::pop") and t["args"] and
-            f.field_path(f.root_of(t["args"][0], through_named=True)[1])[-1:] == ["exprs_to_eval"]
-            if f.root_of(t["args"][0], through_named=True)[0] == "place"]
-    pushes = [bi for bi, t in f.calls() if (M.callee_name(t) or "").endswith("::push") and t["args"] and
-              f.root_of(t["args"][0], through_named=True)[0] == "place" and
-              f.field_path(f.root_of(t["args"][0], through_named=True)[1])[-1:] == ["evalled_values"]]
-    used_sw = [(sb, ft, tt) for (sb, ft, tt) in D.field_switches(f, "value_is_used")]
-    for pb in pops:
-        ok = False
-        for (sb, ft, tt) in used_sw:
-            if f.dominates(pb, sb) and tt is not None and any(x in D.edge_dominated(f, sb, tt) for x in pushes):
-                # and evaluation resumes only after the switch
-                ok = True
-        if ok:
-            res.ok("SKIP-BALANCE", "handle_run_request: the skipped entry's value is supplied when value_is_used")
-        else:
-            res.bad("SKIP-BALANCE", "json_session::handle_run_request # skip-without-value",
-                    "`:skip` drops a pending expression without pushing a value for the expression that was waiting for it: "
-                    "skipping the arguments of a call makes the call pop an empty value stack and the eval thread panics",
-                    f.loc(f.blocks[pb]["term"].get("fn_span")))
-    res.floor("SKIP-BALANCE", "exprs_to_eval.pop() in handle_run_request", len(pops), 1)
+    cands = [hr] + [P.funcs[g] for g, w_ in sorted(owner.items()) if w_ == "json_session::handle_run_request" and g in P.funcs]
+    n_pops = 0
+    for f in cands:
+        pops = [bi for bi, t in f.calls() if (M.callee_name(t) or "").endswith("::pop") and t["args"] and
+                f.root_of(t["args"][0], through_named=True)[0] == "place" and
+                f.field_path(f.root_of(t["args"][0], through_named=True)[1])[-1:] == ["exprs_to_eval"]]
+        pushes = [bi for bi, t in f.calls() if (M.callee_name(t) or "").endswith("::push") and t["args"] and
+                  f.root_of(t["args"][0], through_named=True)[0] == "place" and
+                  f.field_path(f.root_of(t["args"][0], through_named=True)[1])[-1:] == ["evalled_values"]]
+        used_sw = [(sb, ft, tt) for (sb, ft, tt) in D.field_switches(f, "value_is_used")]
+        n_pops += len(pops)
+        for pb in pops:
+            ok = False
+            for (sb, ft, tt) in used_sw:
+                if f.dominates(pb, sb) and tt is not None and any(x in D.edge_dominated(f, sb, tt) for x in pushes):
+                    ok = True
+            if ok:
+                res.ok("SKIP-BALANCE", "%s: the skipped entry's value is supplied when value_is_used" % f.path)
+            else:
+                res.bad("SKIP-BALANCE", "json_session::handle_run_request # skip-without-value",
+                        "`:skip` drops a pending expression without pushing a value for the expression that was waiting for it: "
+                        "skipping the arguments of a call makes the call pop an empty value stack and the eval thread panics",
+                        f.loc(f.blocks[pb]["term"].get("fn_span")))
+    res.floor("SKIP-BALANCE", "exprs_to_eval.pop() in handle_run_request", n_pops, 1)
     # WHO-CALLS-EVAL: the interpreter loop may only be entered from the reviewed entry points. A new direct caller
     # starts evaluating whatever happens to be pending (entries of an earlier, failed evaluation included).
     callers_tbl = json.load(open(os.path.join(VERIF, "tables", "valstack_writers.json")))["eval_callers"]
